@@ -58,7 +58,7 @@ func ruleDeepCopy(c *Ctx, r *Report, prefix string) {
 				mispaired[fd] = fs.Name()
 			}
 		}
-		for _, b := range fn.Blocks {
+		for _, b := range theCtx.GB(fn) {
 			for _, ins := range b.Instrs {
 				switch x := ins.(type) {
 				case *ssa.Store:
@@ -97,7 +97,7 @@ func ruleDeepCopy(c *Ctx, r *Report, prefix string) {
 	// cloneState must go through state.deepcopy on a fresh state
 	if fn, dc := c.Func("lzma", "cloneState"), c.Func("lzma", "state.deepcopy"); fn != nil && dc != nil {
 		ok := false
-		for _, b := range fn.Blocks {
+		for _, b := range theCtx.GB(fn) {
 			for _, ins := range b.Instrs {
 				if call, isCall := callTo(ins, dc); isCall && len(call.Call.Args) == 2 {
 					_, fresh := call.Call.Args[0].(*ssa.Alloc)
